@@ -6,6 +6,7 @@ import (
 	"encoding/hex"
 	"fmt"
 	"regexp"
+	"sort"
 	"strings"
 	"testing"
 	"time"
@@ -424,7 +425,8 @@ func TestProp(t *testing.T) {
 	r.Regress()
 	var pool []Case // cases that held one at a time; re-evaluated 16 at once at the end (shared buffers inside the library show only then)
 	defer func() {
-		r.Rule(fmt.Sprintf("concurrent: the %d value and framing cases above re-evaluated 16 at a time", len(pool)))
+		r.Rule(fmt.Sprintf("concurrent: the %d value and framing cases above re-evaluated 16 at a time, grouped by type so that the goroutines running side by side are in the same encoder and decoder", len(pool)))
+		sort.SliceStable(pool, func(i, j int) bool { return pool[i].Type < pool[j].Type })
 		evid.Parallel(len(pool), 16, func(i int) {
 			v := Eval(pool[i])
 			if !v.OK && v.Sig != "harness" {
